@@ -64,6 +64,7 @@ def run(ctx):
         ctx.guard(adjacent_scope, ctx, cfg, fs)
         ctx.guard(leftmost, ctx, cfg, fs)
         ctx.guard(start_widths, ctx, cfg, fs)
+        ctx.guard(every_start_probed, ctx, cfg, fs)
         import consumers
         ctx.guard(c08.keep_only, ctx, lambda: consumers.primitives(ctx, cfg, fs, 'W.window'), lambda o: o.key in ('get:guarded', 'ArgsIter::next:guarded', 'set_scope:remaining-recount'), 'W.window')
         # the "nothing left to try here" shortcut of the probe reads State::len(): conflicted items count as present (shared with C05)
@@ -227,6 +228,47 @@ def start_widths(ctx, cfg, fs):
             else:
                 outs.add('?')
         ctx.ob('L.leftmost', 'State::ranges:width:%s' % v, outs == {want.get(v, '1')}, 'State::ranges: a group that starts with Item::%s needs %s item(s) at its start position (expected %s)' % (v, sorted(outs), want.get(v, '1')), where=b.where(), cfg=cfg)
+
+def every_start_probed(ctx, cfg, fs):
+    """a block may begin at ANY present item that the group's first member accepts - written with its primary name, a hidden alias, a
+    short name, attached or detached.  Whether a start position is worth an attempt is decided by running the group on it (the
+    probe), not by a shortcut that looks at the word: (a) in ParseAdjacent::eval the only way from "next start position" back to the
+    loop head without the probe is the `nothing present here` test on State::len(); (b) ArgRangesIter hands out `self.width` itself -
+    the number of items the first member needs does not depend on how the word at that position is spelled."""
+    b = ctx.look(fs.one(r'^<structs::ParseAdjacent<P> as Parser<T>>::eval$'))
+    nx = [c for c in b.calls() if c.is_(r'ArgRangesIter.*Iterator>::next$')]
+    evs = [c for c in result_calls(b) if c.is_(r'as Parser<.*>>::eval$', r'Parser<T> for std::boxed::Box')]
+    if len(nx) != 1 or not evs:
+        raise Broken('ParseAdjacent::eval: scan loop / probe not found')
+    sw = switch_on_call(b, nx[0])
+    body_ = sw.target('Some') if sw is not None else None
+    probe = [e for e in evs if body_ is not None and e.bb in reachable_edges(b, body_, avoid=[nx[0].bb]) and all(b.dominates(e.bb, o.bb) or not b.reaches(e.bb, [o.bb]) for o in evs)]
+    if not probe:
+        raise Broken('ParseAdjacent::eval: probe evaluation not identified')
+    pb = probe[0].bb
+    before = reachable_edges(b, body_, avoid=[pb, nx[0].bb])
+    skips = []
+    for x in sorted(before):
+        if b.term(x)['k'] != 'switch': continue
+        s_ = Switch(b, x)
+        for o_, t_ in s_.edges.items():
+            if nx[0].bb in reachable_edges(b, t_, avoid=[pb]) and pb in {y for o2, t2 in s_.edges.items() if t2 != t_ for y in reachable_edges(b, t2)}:
+                by_len = s_.kind in ('bool', 'int') and any(r.kind == 'bin' and any(q.kind == 'call' and q.call.is_(r'^args::inner::State::len$') for k_ in ('a', 'b') for q in provenance(b, r.extra[k_], r.site[0], r.site[1], through=None)) for r in (s_.roots or []))
+                by_len = by_len or (s_.kind in ('bool', 'int') and any(r.kind == 'call' and r.call.is_(r'^args::inner::State::(len|is_empty)$') for r in (s_.roots or [])))
+                skips.append((b.where(x), by_len))
+    ctx.ob('L.leftmost', 'ParseAdjacent::eval:every-start-is-probed', all(ok_ for (_, ok_) in skips),
+           'ways to skip a start position before the probe: %s (only "nothing is present here", read off State::len(), may)' % ([w_ + (' [len]' if ok_ else ' [OTHER]') for (w_, ok_) in skips] or 'none'), where=b.where(pb), cfg=cfg)
+    it = ctx.look(fs.one(r"^<args::inner::ArgRangesIter<'a> as std::iter::Iterator>::next$"))
+    ws = []
+    for i in value_sites(it, 'Some'):
+        for k, st in enumerate(it.blocks[i]['stmts']):
+            if st['k'] == 'assign' and st['rv']['k'] == 'agg' and st['rv'].get('variant') == 'Some':
+                for r in provenance(it, st['rv']['fields'][0], i, k, through=None):
+                    if r.kind == 'agg' and len(r.extra.get('fields', [])) == 3:
+                        for q in provenance(it, r.extra['fields'][1], r.site[0], r.site[1], through=None):
+                            ws.append('self.width' if (q.kind == 'param' and q.path[-1:] == ['width']) else '%s:%s' % (q.kind, q.what if q.kind != 'call' else q.call.name.split('::')[-1]))
+    ctx.ob('L.leftmost', 'ArgRangesIter::next:width-is-the-field', bool(ws) and all(w_ == 'self.width' for w_ in ws),
+           'the width handed out with every start position is %s' % sorted(set(ws)), where=it.where(), cfg=cfg)
 
 def contiguous(ctx, cfg, fs):
     b = ctx.look(fs.one(r'^args::inner::State::adjacently_available_from$'))
